@@ -169,6 +169,27 @@ package keeper
 //@        usdv(val(res_TokensFromShares_0), val(prices[assetID].Value), decimals[assetID], prices[assetID].Decimal)
 //@   ensures[C05.cuvo.selfamt] err == nil && !isForSlash ==> val(res_TokensFromShares_0) == selfTokens(state)
 //@   ensures[C05.cuvo.other] err == nil && !isForSlash ==> final_ret.StakingAndWaitUnbonding == ret.StakingAndWaitUnbonding
+//@   ensures[C04.cuvo.slashvalue] err == nil && isForSlash ==> val(final_ret.StakingAndWaitUnbonding) == val(ret.StakingAndWaitUnbonding) + val(res_CalculateUSDValue_0) &&
+//@        final_ret.Staking == ret.Staking && final_ret.SelfStaking == ret.SelfStaking
+//@   before[C04.cuvo.slashvalue] CalculateUSDValue requires isForSlash ==> val(arg_assetAmount) == val(state.TotalAmount) + val(state.PendingUndelegationAmount) &&
+//@        arg_assetDecimal == res_GetStakingAssetInfo_0.AssetBasicInfo.Decimals
+
+// C05: whatever the visitor computes for an operator of the AVS (total, self and active value) is what is stored:
+// every visit with isUpdate writes the visited record back under its own key, unconditionally.
+//@ func (*Keeper).IterateOperatorsForAVS#opFunc
+//@   flag assumed
+//@   modifies *optedUSDValues
+//@   emits mkEv(62, "visit", 0)
+
+//@ define usdOpPfx() = g("x/operator/types.KeyPrefixUSDValueForOperator")
+//@ func (*Keeper).IterateOperatorsForAVS
+//@   flag pure=ParseJoinedKey
+//@   modifies store(ctx, "operator"), trace, heap["x/operator/types.OperatorOptedUSDValue"]
+//@   before[C05.iofa.record] #opFunc requires *arg_optedUSDValues == unm["x/operator/types.OperatorOptedUSDValue"](res_Value_0)
+//@   ensures[C05.iofa.readonly] !isUpdate ==> state(ctx) == old(state(ctx))
+//@ loop #1
+//@   invariant !isUpdate ==> state(ctx) == old(state(ctx))
+//@   step[C05.iofa.persist] traceN() == old(traceN()) + 1 && (isUpdate ==> get(ctx, "operator", cat(usdOpPfx(), res_Key_0)) == res_MustMarshal_0)
 
 //@ define uvpActive(s, min) = ite(val(s.SelfStaking) >= val(min), val(s.Staking), 0)
 //@ func (*Keeper).UpdateVotingPower$1
